@@ -110,6 +110,13 @@ def run(prop, tier, seed):
             ls = pool.apply(_ls_elements, (0,))
         pools.update(ls)
         pools['fsrule_un'] = list(pools.get('fsrule', []))       # the same rules through the MP_UNREACH_NLRI decoder
+        # IPv4 prefixes through the decoder of the multiprotocol attributes, and both decoders with add-path identifiers
+        # (a different identifier in front of every element)
+        v4 = sorted(set(pools.get('v4prefix', [])))
+        pools['v4mp'] = list(v4)
+        ids = ['00000000', '00000001', '00000007', '00000109', '7fffffff', 'ffffffff', '00010000']
+        pools['v4mp_ap'] = [ids[j % len(ids)] + h for j, h in enumerate(v4)]
+        pools['v4prefix_ap'] = [ids[(j + 3) % len(ids)] + h for j, h in enumerate(v4)]
         jobs = []
         ident = 0
         reps_n = 6 if tier == 'quick' else 14
